@@ -10,6 +10,10 @@ open PedVerif.Switch
 #print axioms rows_cover
 #print axioms disabled_is_identity
 #print axioms enabled_checks
+#print axioms enabled_opaque_unspecified
+#print axioms decorate_disabled_is_identity
+#print axioms apply_disabled_is_identity
+#print axioms closedMode_live
 #print axioms read_at_decoration
 #print axioms read_at_application
 #print axioms redecorate_disabled_is_identity
